@@ -50,6 +50,10 @@ type Case struct {
 	// Pairs (mode pool): a message holds two consecutive records of its stream and ends with a record
 	// the process refuses; what was taken before the refusal is taken exactly once
 	Pairs bool `json:"pairs,omitempty"`
+	// Older (bits): exporters of different versions. 1: the source node of flow 0 has no
+	// destinationPodName / destinationPodNamespace elements in its template; 2: the destination node
+	// of flow 1 has no sourcePodName element; the other node's record brings them
+	Older int `json:"older,omitempty"`
 }
 
 var rec *ev.Recorder
@@ -144,6 +148,12 @@ func runCase(c Case) (*ev.Failure, bool) {
 		defer glue.SetKlogVerbosity(0)
 	}
 	fl := flows()
+	if c.Older&1 != 0 {
+		fl[0].OmitS = []string{"destinationPodName", "destinationPodNamespace"}
+	}
+	if c.Older&2 != 0 {
+		fl[1].OmitD = []string{"sourcePodName"}
+	}
 	ch := make(chan *entities.Message)
 	ap := aggh.New(2*time.Hour+30*time.Minute+20*time.Second, 1000000*time.Hour, ch, max(1, c.Workers))
 	startReturned := make(chan struct{})
@@ -479,6 +489,7 @@ func genCase(t *rapid.T) Case {
 		Procs: rapid.SampledFrom([]int{2, 4, 16}).Draw(t, "procs")}
 	c.Verbose = rapid.IntRange(0, 3).Draw(t, "verbose") == 0
 	c.Pairs = c.Mode == "pool" && rapid.IntRange(0, 2).Draw(t, "pairs") == 0
+	c.Older = rapid.SampledFrom([]int{0, 0, 1, 2, 3}).Draw(t, "older")
 	for s := 0; s < 6; s++ {
 		var recs []int
 		n := rapid.IntRange(0, 25).Draw(t, "nrec")
